@@ -150,19 +150,19 @@ Proof.
   destruct (pdutype_known pt); cbn [negb]; auto.
   destruct (pt =? PDUTYPE_DEMANDACTIVE) eqn:E1; [apply N.eqb_eq in E1|].
   { pose proof (parse_field_prod pt "pduMessage" c ts_demand_active_pdu Hb Hf2 Ls2) as H.
-    match goal with |- match ?o with _ => _ end => destruct o as [[t m]| | |]; auto end.
+    match goal with |- match ?o with _ => _ end => destruct o as [[t m]| | |]; [| exact I | exact H | exact H] end.
     destruct H as [-> H]. auto. }
   destruct (pt =? PDUTYPE_DATA) eqn:E2; [apply N.eqb_eq in E2|].
   { pose proof (parse_field_prod pt "pduMessage" c share_data_header_t Hb Hf2 Ls3) as H.
-    match goal with |- match ?o with _ => _ end => destruct o as [[t m]| | |]; auto end.
+    match goal with |- match ?o with _ => _ end => destruct o as [[t m]| | |]; [| exact I | exact H | exact H] end.
     destruct H as [-> H]. auto. }
   destruct (pt =? PDUTYPE_CONFIRMACTIVE) eqn:E3; [apply N.eqb_eq in E3|].
   { pose proof (parse_field_prod pt "pduMessage" c ts_confirm_active_pdu_t Hb Hf2 Ls4) as H.
-    match goal with |- match ?o with _ => _ end => destruct o as [[t m]| | |]; auto end.
+    match goal with |- match ?o with _ => _ end => destruct o as [[t m]| | |]; [| exact I | exact H | exact H] end.
     destruct H as [-> H]. auto. }
   destruct (pt =? PDUTYPE_DEACTIVATEALL) eqn:E4; [apply N.eqb_eq in E4|]; auto.
   { pose proof (parse_field_prod pt "pduMessage" c ts_deactivate_all_pdu Hb Hf2 Ls5) as H.
-    match goal with |- match ?o with _ => _ end => destruct o as [[t m]| | |]; auto end.
+    match goal with |- match ?o with _ => _ end => destruct o as [[t m]| | |]; [| exact I | exact H | exact H] end.
     destruct H as [-> H]. auto 6. }
 Qed.
 
